@@ -108,7 +108,9 @@ func RunDaemonCase(c Case, baseDir string, d DaemonCfg) (evs []Event) {
 			r.daemonStop()
 		}
 		r.closeApp()
-		os.RemoveAll(r.dir)
+		if os.Getenv("VERIF_KEEP") == "" { // debugging aid: keep the database, the local state and the replica
+			os.RemoveAll(r.dir)
+		}
 	}()
 	// control run (no litestream at all): application-visible content after every step of the same application history
 	var ctl []int
